@@ -221,6 +221,9 @@ def run(ctx, model):
         ("ctor_helpers", lambda: check_ctor_and_helpers(ctx, model, idm, SUB, subs, cov)),
         ("strings", lambda: check_strings(ctx, model, idm, S, SUB, subs, cov)),
         ("sqlite", lambda: check_sqlite(ctx, model, idm, S, SUB, cov)),
+        # the subspace a TupimageTerminal draws from after its id_space / id_subspace was re-assigned on the live object is the
+        # one a terminal constructed with the new values draws from (ids, evictions, listings agree)
+        ("highlevel", lambda: __import__("c08_cli").reconfigure_equivalence(ctx, cov, ctx.pick(16, 80), must_change=["id_subspace", "id_space"])),
     ]
     timing = {}
     for name, fn in steps:
@@ -779,6 +782,14 @@ def check_sqlite(ctx, model, idm, S, SUB, cov):
 
 # ---------------------------------------------------------------- replay of a stored violation
 def replay(ctx, model, rec):
+    if rec.get("case", {}).get("kind") == "reconfigure":
+        import c08_cli
+        n0 = len(ctx.violations)
+        c0 = rec["case"]
+        c08_cli.reconfigure_equivalence(ctx, common.Coverage("replay"), 60, must_change=sorted(k for k in c0["after"] if c0["after"][k] != c0["before"].get(k))[:1] or None)
+        mine = ctx.violations[n0:]
+        del ctx.violations[n0:]
+        return {"violates": bool(mine), "violations": [v["what"] for v in mine][:3]}
     case = rec["case"]
     kind = case.get("kind")
     tup = common.import_impl()
